@@ -248,7 +248,7 @@ pub fn h_list_hist(inp: &Inp) -> u8 {
     }
 }
 
-//@ harness props=C16 tiers=thorough covers=3 name=List validate_op: Ok for the next op of an actor and for duplicates, DotRange exactly when the op skips a counter of its actor
+//@ harness props=C16 covers=3 name=List validate_op: Ok for the next op of an actor and for duplicates, DotRange exactly when the op skips a counter of its actor
 #[no_mangle]
 pub fn h_list_validate_op(inp: &Inp) -> u8 {
     let mut i = In::new(inp);
@@ -265,7 +265,15 @@ pub fn h_list_validate_op(inp: &Inp) -> u8 {
     author.apply(op1.clone());
     let op2 = author.insert_index(ix2, 11, a);
     author.apply(op2.clone());
-    let op3 = author.insert_index(ix3, 12, a);
+    // the third op is an insert or a delete of the first element
+    let op3 = if skip && ix3 == 0 {
+        match author.delete_index(0, a) {
+            Some(o) => o,
+            None => return 0,
+        }
+    } else {
+        author.insert_index(ix3, 12, a)
+    };
     let mut r: L = List::new();
     if r.validate_op(&op1).is_err() {
         return 0;
@@ -616,6 +624,11 @@ pub fn h_list_hist3(inp: &Inp) -> u8 {
     }
     r1.apply(op1.clone());
     if v == 0 {
+        // a replica that has seen nothing accepts op1 iff it is its actor's first op
+        let fresh: L = List::new();
+        if fresh.validate_op(&op1).is_ok() != (a0 != a1) {
+            return 0;
+        }
         let after1 = seq(&r1);
         if del1 {
             if after1.1 != 0 {
